@@ -101,6 +101,7 @@ func taskErr(o int) error {
 type polCase struct {
 	Script     []int  `json:"script"`
 	TaskNS     int64  `json:"task_ns"`
+	DialNS     int64  `json:"dial_ns"`     // time one dial attempt takes (a shutdown can arrive while a dial is in flight)
 	CancelNS   int64  `json:"cancel_ns"`   // 0 = never
 	CancelNil  bool   `json:"cancel_nil"`  // cancelled task returns nil (as Advertiser/Monitor do) instead of ctx.Err()
 	Mode       int    `json:"mode"`        // Advertise / Monitor
@@ -160,10 +161,12 @@ func polModel(c polCase) polTrace {
 	first := true
 	for {
 		ok := false
+		dialLat := time.Duration(c.DialNS)
 		if first {
 			first = false
 			o := next(1, nDial)
 			ev("dial:%s", dialNames[o])
+			t += dialLat // the dial itself is not interruptible
 			if o == dOK {
 				ok = true
 			} else {
@@ -180,6 +183,14 @@ func polModel(c polCase) polTrace {
 				if wait > 3*time.Second {
 					wait = 3 * time.Second
 				}
+				if cancel > 0 && cancel <= t {
+					if wait == 0 {
+						// already cancelled and a zero back-off timer: both select cases are ready
+						tr.Unspecified = "cancellation before a zero-length back-off wait (either branch may win)"
+					}
+					tr.Result, tr.ReturnAt = "nil", t
+					return tr
+				}
 				if cancel > 0 && cancel > t && cancel <= t+wait {
 					tr.Result, tr.ReturnAt = "nil", cancel
 					return tr
@@ -187,6 +198,7 @@ func polModel(c polCase) polTrace {
 				t += wait
 				o := next(1, nDial)
 				ev("dial:%s", dialNames[o])
+				t += dialLat
 				switch o {
 				case dOK:
 					ok = true
@@ -202,7 +214,16 @@ func polModel(c polCase) polTrace {
 		ev("task-start")
 		o := next(2, nTask)
 		dur := time.Duration(c.TaskNS)
-		if cancel > 0 && cancel > t && cancel <= t+dur {
+		if cancel > 0 && cancel <= t {
+			// the shutdown arrived while the dial was in flight: the task sees a cancelled context
+			o = tCanceledErr
+			if c.CancelNil {
+				o = tNil
+			}
+			if dur == 0 {
+				tr.Unspecified = "cancelled context and a zero-length task (either branch may win)"
+			}
+		} else if cancel > 0 && cancel > t && cancel <= t+dur {
 			t = cancel
 			o = tCanceledErr
 			if c.CancelNil {
@@ -240,6 +261,7 @@ type polHost struct {
 	log      []string
 	conns    []*vkNDPConn
 	script   func(stage string) error // failure of lookup / check / dialNDP for the current attempt
+	dialLatency time.Duration
 }
 
 func (h *polHost) now() time.Duration { return time.Since(h.t0) }
@@ -331,6 +353,9 @@ func vkCheckInterface(ifi *net.Interface, _ func() ([]net.Addr, error)) error {
 }
 
 func vkDialNDP(ifi *net.Interface) (*vkNDPConn, netip.Addr, error) {
+	if vkHost.dialLatency > 0 {
+		time.Sleep(vkHost.dialLatency)
+	}
 	if err := vkHost.script("socket"); err != nil {
 		return nil, netip.Addr{}, err
 	}
@@ -365,7 +390,7 @@ func polExecute(t *testing.T, c polCase) polRun {
 		}
 	}()
 	synctest.Test(t, func(*testing.T) {
-		h := &polHost{t0: time.Now(), autoconf: c.Autoconf0, fails: c.StateFails}
+		h := &polHost{t0: time.Now(), autoconf: c.Autoconf0, fails: c.StateFails, dialLatency: time.Duration(c.DialNS)}
 		out.Host = h
 		vkHost = h
 		mode := Advertise
@@ -418,6 +443,9 @@ func polExecute(t *testing.T, c polCase) polRun {
 			d.DialFunc = func() (*DialContext, error) {
 				o := next(nDial)
 				ev("dial:%s", dialNames[o])
+				if c.DialNS > 0 {
+					time.Sleep(time.Duration(c.DialNS))
+				}
 				if err := dialErr(o); err != nil {
 					return nil, err
 				}
@@ -597,6 +625,22 @@ func polEnumerate(depth int, cancels []int64, real bool) func(yield func(polCase
 					return false
 				}
 			}
+			// the same execution with dials that take 20 ms, cancelled while the k-th dial is in flight
+			withLat := base
+			withLat.DialNS = int64(20 * time.Millisecond)
+			lat := polModel(withLat)
+			for _, e := range lat.Events {
+				if !strings.HasPrefix(e.What, "dial:") {
+					continue
+				}
+				c := withLat
+				c.Script = append([]int(nil), script...)
+				c.CancelNS = int64(e.At) + int64(7*time.Millisecond) + 1
+				c.CancelNil = len(script)%2 == 0
+				if !yield(c) {
+					return false
+				}
+			}
 			return true
 		}
 		rec(nil)
@@ -616,6 +660,9 @@ func polGen(real bool) func(t *rapid.T) polCase {
 			} else {
 				c.Script = append(c.Script, rapid.IntRange(0, 6).Draw(t, "d"))
 			}
+		}
+		if rapid.IntRange(0, 2).Draw(t, "diallat") == 0 {
+			c.DialNS = rapid.SampledFrom([]int64{int64(10 * time.Millisecond), int64(40 * time.Millisecond)}).Draw(t, "dialns")
 		}
 		if rapid.Bool().Draw(t, "cancel") {
 			c.CancelNS = rapid.Int64Range(0, 400).Draw(t, "cancelslot")*int64(125*time.Millisecond) + 1
